@@ -62,7 +62,9 @@ def payloads(rng, tier):
         bits = gen.message(rng, L)
         bits = bits + [rng.randint(0, 1) for _ in range(L - len(bits))]
         prev = list(bits)
-        how = rng.choice(["middle", "middle", "middle", "swap", "same", "edges"])
+        how = rng.choice(["middle", "middle", "middle", "swap", "same", "edges", "crc", "crc"])
+        if how == "crc":
+            prev = gen.checksum_twin(rng, bits) or prev
         if how == "middle" and L >= 8:
             a, b2 = sorted(rng.sample(range(3, L - 3), 2))
             for j in range(a, b2 + 1):
